@@ -167,17 +167,22 @@ class Fn:
                 break
         return i
 
-    def text(self, i, depth=0):
-        """Canonical rendering of an expression (for keys and diagnostics)."""
+    def text(self, i, depth=0, ref_cb=None):
+        """Canonical rendering of an expression (for keys and diagnostics).
+        ref_cb(node) may return a replacement string for a reference."""
         if i is None or i < 0:
             return "?"
-        if depth > 12:
+        if depth > (40 if ref_cb else 12):
             return "..."
         i = self.strip(i)
         n = self.nodes[i]
         k = n["k"]
-        T = lambda x: self.text(x, depth + 1)
+        T = lambda x: self.text(x, depth + 1, ref_cb)
         if k == "ref":
+            if ref_cb is not None:
+                r = ref_cb(n)
+                if r is not None:
+                    return r
             if n["dk"] in ("global", "enumconst", "func", "static_local"):
                 return n.get("qname", n["name"])
             if n["name"] in self.dup_names:
